@@ -10,8 +10,8 @@
       internal/server/uid/uid.go : handleUIDSearch   -- a SEPARATE implementation
       internal/server/connection.go : handleClient's  parts := strings.Fields(line)
 
-    [option] results: [None] is a Go run-time panic (index out of range), which
-    in raven ends the whole process (no recover).  No proofs in this file. *)
+    [option] results: [None] is a Go run-time panic.  Since fix bb43d4f (guard before the
+    second OR key) no branch of the evaluator produces it any more; the type is kept.  No proofs in this file. *)
 From Coq Require Import String Ascii List Bool Arith NArith ZArith.
 From Raven Require Import Base.GoStr.
 Import ListNotations.
@@ -223,10 +223,10 @@ Definition flag_recent := S_ "\Recent".
 Definition flag_seen := S_ "\Seen".
 
 (** message.hasFlag (fix 378938d): the flag string is split with strings.Fields
-    and whole flags are compared.  [flag_eqb] is the comparison [f == flag] of
-    that loop — ONE definition, to be switched (e.g. to [equal_fold]) when the
-    code's comparison changes. *)
-Definition flag_eqb (f flag : str) : bool := str_eqb f flag.
+    and whole flags are compared.  [flag_eqb] is the comparison of that loop —
+    ONE definition: [f == flag] in 378938d, [strings.EqualFold(f, flag)] since
+    d007c6d (ASCII model of EqualFold: equal after upper-casing a-z). *)
+Definition flag_eqb (f flag : str) : bool := equal_fold f flag.
 Definition has_flag_go (flags flag : str) : bool := existsb (fun f => flag_eqb f flag) (fields flags).
 
 (** [if !c { return false }; i++; continue] *)
@@ -288,9 +288,9 @@ Fixpoint eval_loop (tokens : list str) {struct tokens} : option bool :=
                 match rest1 with
                 | x :: rest2 =>                                 (* i+2 < len(tokens) *)
                     if requires_argument (to_upper k1) then
-                      (* key1 = [k1; x]; then i++ and tokens[i] is read unguarded *)
+                      (* key1 = [k1; x]; then i++; fix bb43d4f: [if i >= len(tokens) { return false }] *)
                       match rest2 with
-                      | [] => None                              (* index out of range *)
+                      | [] => Some false                        (* the second key is missing *)
                       | k2 :: rest3 =>
                           if requires_argument (to_upper k2) then
                             match rest3 with
